@@ -1,5 +1,6 @@
 import SSDriver.Util
 import SSModel.ExcTable
+import SSModel.Localsplus
 namespace SS.Drv.C01
 open Lean SS.ExcTable SS.Drv
 
@@ -11,7 +12,17 @@ def showBlocks : Option (List Block) → String
 def toEntry (v : View) : Entry :=
   { start := v.start / 2, size := ((v.end_ + 2 - v.start) / 2).toNat, target := v.target / 2, depth := v.depth, lasti := v.lasti }
 
+def strList (j : Json) (k : String) : Except String (List String) := do
+  (← jArr (← jField j k)).toList.mapM jStr
+
 def handle (j : Json) : Except String String := do
+  if (j.getObjVal? "k" >>= Json.getStr?).toOption == some "nlocalsplus" then
+    -- several code objects at once: [[varnames, cellvars, freevars], ...] → the slot counts
+    let cs ← (← jArr (← jField j "codes")).toList.mapM (fun c => do
+      let a ← jArr c
+      let f := fun (x : Json) => do (← jArr x).toList.mapM jStr
+      pure ((← f a[0]!), (← f a[1]!), (← f a[2]!)))
+    return " ".intercalate (cs.map (fun (v, c, f) => toString (SS.Localsplus.slotsCode v c f)))
   let bytes ← (← jArr (← jField j "bytes")).toList.mapM jNat
   let points ← (← jArr (← jField j "points")).toList.mapM fun p => do
     let a ← jArr p
